@@ -63,8 +63,19 @@ def build(v):
     env["CARGO_TARGET_DIR"] = tdir
     env["RUSTFLAGS"] = spec.get("rustflags", "--cfg oxidd_verif")
     if spec.get("miri"):
-        # miri runs from source; nothing to pre-build except the sysroot (done lazily by cargo miri)
-        _built[v] = (True, "")
+        # build the Miri sysroot and the harness once (a `list` run), so that parallel shards only interpret
+        env["MIRIFLAGS"] = spec["miriflags"]
+        cmd = ["cargo", "+nightly", "miri", "run", "--offline", "--bin", "vh"]
+        if spec.get("features") is not None:
+            cmd += ["--no-default-features", "--features", spec["features"]]
+        cmd += ["--", "list"]
+        t0 = time.time()
+        p = subprocess.run(cmd, cwd=HARNESS, env=env, stdout=subprocess.PIPE, stderr=subprocess.STDOUT, text=True)
+        ok = p.returncode == 0
+        log(f"[build] {v}: {'ok' if ok else 'FAILED'} in {time.time() - t0:.1f}s")
+        if not ok:
+            log(p.stdout[-4000:])
+        _built[v] = (ok, p.stdout[-4000:])
         return _built[v]
     cmd = ["cargo"]
     if spec.get("nightly"):
@@ -102,7 +113,7 @@ def run_shard(job, shard, nshards, tier, seed, extra_param=None):
     if spec.get("miri"):
         env["CARGO_TARGET_DIR"] = tdir
         env["RUSTFLAGS"] = spec.get("rustflags", "--cfg oxidd_verif")
-        env["MIRIFLAGS"] = spec["miriflags"] + " " + job.get("miriflags", "")
+        env["MIRIFLAGS"] = spec["miriflags"] + " " + job.get("miriflags", "") + f" -Zmiri-seed={seed * 1000 + shard}"
         cmd = ["cargo", "+nightly", "miri", "run", "--offline", "--bin", "vh"]
         if spec.get("features") is not None:
             cmd += ["--no-default-features", "--features", spec["features"]]
